@@ -753,6 +753,198 @@ theorem step_construct (classes : List ClassInfo) (hcl : Copies classes) {s : St
         simp only [viewC]
         rw [hV e.2.t (List.mem_append_right _ (List.mem_map.mpr ⟨e, he, rfl⟩))]
 
+/-! ## rewriting the dict of one connection (`del d[k]`, `d[k] = new object`) -/
+
+/-- the dict cell of connection `c` is replaced by entries that are old entries or point at the one
+    freshly allocated level: invariant kept, every other snapshot unchanged -/
+theorem dict_rewrite {s : St} (hi : Inv s) {pre post : List (Nat × Conn)} {i : Nat} {c : Conn}
+    (hc : s.conns = pre ++ (i, c) :: post) (ext : List Obj) (es' : List (String × Nat))
+    (hes : ∀ e ∈ es', e ∈ cellDict s.heap c.t.privs ∨ (e.2 = s.heap.length ∧ ∃ d, ext = [Obj.lvl d]))
+    (hnd' : (es'.map (·.2)).Nodup) :
+    Inv { s with heap := (s.heap ++ ext).set c.t.privs (Obj.dict es') } ∧
+    view { s with heap := (s.heap ++ ext).set c.t.privs (Obj.dict es') } =
+      ⟨(view s).defs, pre.map (viewC s.heap) ++
+        (i, ⟨c.cls, ⟨es'.map (fun e => (e.1, cellLvl (s.heap ++ ext) e.2)), cellStrs s.heap c.t.fwc⟩⟩)
+          :: post.map (viewC s.heap)⟩ := by
+  have w := hi.wf c.t (conn_root hc)
+  have hb := w.bounded
+  have hnd := w.nodup
+  simp only [region, regionP, List.nodup_cons, List.mem_cons, not_or] at hnd
+  have hpl : c.t.privs < s.heap.length := hb _ (by simp [region, regionP])
+  have hfl : c.t.fwc < s.heap.length := hb _ (by simp [region])
+  have hget : ((s.heap ++ ext).set c.t.privs (Obj.dict es'))[c.t.privs]? = some (Obj.dict es') :=
+    get_set_self _ _ (by simp; omega)
+  have hx2 : ∀ x, x ≠ c.t.privs → ((s.heap ++ ext).set c.t.privs (Obj.dict es'))[x]? = (s.heap ++ ext)[x]? :=
+    fun x hne => get_set_ne _ _ hne
+  have hold : ∀ x, x < s.heap.length → x ≠ c.t.privs →
+      ((s.heap ++ ext).set c.t.privs (Obj.dict es'))[x]? = s.heap[x]? := by
+    intro x hx hne; rw [hx2 x hne, get_append_old _ _ hx]
+  generalize (s.heap ++ ext).set c.t.privs (Obj.dict es') = h' at hget hx2 hold ⊢
+  have hd' : cellDict h' c.t.privs = es' := by simp [cellDict, hget]
+  have hentry : ∀ e ∈ cellDict s.heap c.t.privs, e.2 < s.heap.length ∧ e.2 ≠ c.t.privs ∧ e.2 ≠ c.t.fwc := by
+    intro e he
+    have hm : e.2 ∈ (cellDict s.heap c.t.privs).map (·.2) := List.mem_map.mpr ⟨e, he, rfl⟩
+    refine ⟨hb _ (mem_region.mpr (Or.inr (Or.inr ⟨e, he, rfl⟩))), ?_, ?_⟩
+    · intro h; rw [h] at hm; exact hnd.2.1 hm
+    · intro h; rw [h] at hm; exact hnd.1.2 hm
+  have hne' : ∀ e ∈ es', e.2 ≠ c.t.privs ∧ e.2 ≠ c.t.fwc := by
+    intro e he
+    rcases hes e he with h | ⟨h, _⟩
+    · exact (hentry e h).2
+    · rw [h]; exact ⟨by omega, by omega⟩
+  have hreg' : region h' c.t = c.t.fwc :: c.t.privs :: es'.map (·.2) := by simp [region, regionP, hd']
+  have wf' : WF h' c.t := by
+    refine ⟨⟨_, hget⟩, ?_, ?_, ?_⟩
+    · intro e he
+      rw [hd'] at he
+      rcases hes e he with h | ⟨h, d, hd⟩
+      · obtain ⟨d, hd⟩ := w.lvls e h
+        exact ⟨d, by rw [hold _ (hentry e h).1 (hentry e h).2.1, hd]⟩
+      · refine ⟨d, ?_⟩
+        rw [hx2 _ (hne' e he).1, h, hd]; simp
+    · obtain ⟨l, hl'⟩ := w.strs
+      exact ⟨l, by rw [hold _ hfl hnd.1.1, hl']⟩
+    · rw [hreg']
+      simp only [List.nodup_cons, List.mem_cons, not_or]
+      refine ⟨⟨hnd.1.1, ?_⟩, ?_, hnd'⟩
+      · intro hm; obtain ⟨e, he, h⟩ := List.mem_map.mp hm; exact (hne' e he).2 h
+      · intro hm; obtain ⟨e, he, h⟩ := List.mem_map.mp hm; exact (hne' e he).1 h
+  obtain ⟨hI, hV⟩ := mutate_inv hi hc (h' := h')
+    (fun x hx hnr => hold x hx (fun h => hnr (h ▸ (by simp [region, regionP]))))
+    wf' (by
+      intro x hx
+      rw [hreg'] at hx
+      simp only [List.mem_cons] at hx
+      rcases hx with rfl | rfl | hx
+      · left; simp [region]
+      · left; simp [region, regionP]
+      · obtain ⟨e, he, rfl⟩ := List.mem_map.mp hx
+        rcases hes e he with h | ⟨h, _⟩
+        · left; exact mem_region.mpr (Or.inr (Or.inr ⟨e, h, rfl⟩))
+        · right; omega)
+  refine ⟨hI, ?_⟩
+  rw [hV]
+  have hvp : viewPrivs h' c.t.privs = es'.map (fun e => (e.1, cellLvl (s.heap ++ ext) e.2)) := by
+    simp only [viewPrivs, hd']
+    apply List.map_congr_left
+    intro e he
+    rw [cellLvl_congr (hx2 _ (hne' e he).1)]
+  have hvf : cellStrs h' c.t.fwc = cellStrs s.heap c.t.fwc := cellStrs_congr (hold _ hfl hnd.1.1)
+  simp [viewT, hvp, hvf]
+
+theorem step_delLevel (classes : List ClassInfo) {s : St} (hi : Inv s) (i : Nat) (lvl : String) :
+    Inv (step classes s (.delLevel i lvl)) ∧
+    view (step classes s (.delLevel i lvl)) = stepV classes (view s) (.delLevel i lvl) := by
+  simp only [step, stepV]
+  cases hl : s.conns.lookup i with
+  | none => exact ⟨hi, by rw [conns_none_view s hl]⟩
+  | some c =>
+    obtain ⟨pre, post, hc, hp⟩ := lookup_split hl
+    have w := hi.wf c.t (conn_root hc)
+    have hnd := w.nodup
+    simp only [region, regionP, List.nodup_cons, List.mem_cons, not_or] at hnd
+    have h := dict_rewrite hi hc [] ((cellDict s.heap c.t.privs).filter (fun e => !(lvl == e.1)))
+      (fun e he => Or.inl (List.mem_filter.mp he).1)
+      (hnd.2.2.sublist ((List.filter_sublist).map _))
+    simp only [List.append_nil] at h
+    refine ⟨h.1, ?_⟩
+    rw [h.2, conns_split_view s hc hp]
+    simp [viewT, viewPrivs, List.filter_map, Function.comp_def]
+
+theorem repoint_snd_mem {k : String} {a x : Nat} {es : List (String × Nat)}
+    (h : x ∈ (repoint k a es).map (·.2)) : x ∈ es.map (·.2) ∨ x = a := by
+  induction es with
+  | nil => simp [repoint] at h; exact Or.inr h
+  | cons e r ih =>
+    simp only [repoint] at h
+    split at h
+    · simp only [List.map_cons, List.mem_cons] at h ⊢
+      rcases h with h | h
+      · exact Or.inr h
+      · exact Or.inl (Or.inr h)
+    · simp only [List.map_cons, List.mem_cons] at h ⊢
+      rcases h with h | h
+      · exact Or.inl (Or.inl h)
+      · rcases ih h with h | h
+        · exact Or.inl (Or.inr h)
+        · exact Or.inr h
+
+theorem repoint_mem {k : String} {a : Nat} {es : List (String × Nat)} {e : String × Nat}
+    (h : e ∈ repoint k a es) : e ∈ es ∨ e.2 = a := by
+  induction es with
+  | nil => simp [repoint] at h; exact Or.inr (by rw [h])
+  | cons x r ih =>
+    simp only [repoint] at h
+    split at h
+    · rcases List.mem_cons.mp h with h | h
+      · exact Or.inr (by rw [h])
+      · exact Or.inl (List.mem_cons_of_mem _ h)
+    · rcases List.mem_cons.mp h with h | h
+      · exact Or.inl (by rw [h]; exact List.mem_cons_self)
+      · rcases ih h with h | h
+        · exact Or.inl (List.mem_cons_of_mem _ h)
+        · exact Or.inr h
+
+theorem repoint_nodup {k : String} {a : Nat} {es : List (String × Nat)}
+    (hn : (es.map (·.2)).Nodup) (ha : a ∉ es.map (·.2)) : ((repoint k a es).map (·.2)).Nodup := by
+  induction es with
+  | nil => simp [repoint]
+  | cons e r ih =>
+    simp only [List.map_cons, List.nodup_cons, List.mem_cons, not_or] at hn ha
+    simp only [repoint]
+    split
+    · simp only [List.map_cons, List.nodup_cons]
+      exact ⟨ha.2, hn.2⟩
+    · simp only [List.map_cons, List.nodup_cons]
+      refine ⟨?_, ih hn.2 ha.2⟩
+      intro hm
+      rcases repoint_snd_mem hm with h | h
+      · exact hn.1 h
+      · exact ha.1 h.symm
+
+theorem repoint_view (h : Heap) (d : Level) (k : String) (es : List (String × Nat))
+    (hb : ∀ e ∈ es, e.2 < h.length) :
+    (repoint k h.length es).map (fun e => (e.1, cellLvl (h ++ [Obj.lvl d]) e.2))
+      = putLevel k d (es.map (fun e => (e.1, cellLvl h e.2))) := by
+  have hnew : cellLvl (h ++ [Obj.lvl d]) h.length = d := by simp [cellLvl]
+  have hold : ∀ e ∈ es, cellLvl (h ++ [Obj.lvl d]) e.2 = cellLvl h e.2 :=
+    fun e he => cellLvl_congr (get_append_old _ _ (hb e he))
+  induction es with
+  | nil => simp [repoint, putLevel, hnew]
+  | cons e r ih =>
+    have hr : r.map (fun e => (e.1, cellLvl (h ++ [Obj.lvl d]) e.2)) = r.map (fun e => (e.1, cellLvl h e.2)) := by
+      apply List.map_congr_left
+      intro x hx; rw [hold x (List.mem_cons_of_mem _ hx)]
+    simp only [repoint, List.map_cons, putLevel]
+    split
+    · simp [hnew, hr]
+    · simp only [List.map_cons, hold e List.mem_cons_self]
+      rw [ih (fun x hx => hb x (List.mem_cons_of_mem _ hx)) (fun x hx => hold x (List.mem_cons_of_mem _ hx))]
+
+theorem step_addLevel (classes : List ClassInfo) {s : St} (hi : Inv s) (i : Nat) (lvl : String) (d : Level) :
+    Inv (step classes s (.addLevel i lvl d)) ∧
+    view (step classes s (.addLevel i lvl d)) = stepV classes (view s) (.addLevel i lvl d) := by
+  simp only [step, stepV]
+  cases hl : s.conns.lookup i with
+  | none => exact ⟨hi, by rw [conns_none_view s hl]⟩
+  | some c =>
+    obtain ⟨pre, post, hc, hp⟩ := lookup_split hl
+    have w := hi.wf c.t (conn_root hc)
+    have hb := w.bounded
+    have hnd := w.nodup
+    simp only [region, regionP, List.nodup_cons, List.mem_cons, not_or] at hnd
+    have hlt : ∀ e ∈ cellDict s.heap c.t.privs, e.2 < s.heap.length :=
+      fun e he => hb _ (mem_region.mpr (Or.inr (Or.inr ⟨e, he, rfl⟩)))
+    have hfresh : s.heap.length ∉ (cellDict s.heap c.t.privs).map (·.2) := by
+      intro hm; obtain ⟨e, he, h⟩ := List.mem_map.mp hm
+      have := hlt e he; omega
+    have h := dict_rewrite hi hc [Obj.lvl d] (repoint lvl s.heap.length (cellDict s.heap c.t.privs))
+      (fun e he => (repoint_mem he).elim Or.inl (fun h => Or.inr ⟨h, d, rfl⟩))
+      (repoint_nodup hnd.2.2 hfresh)
+    refine ⟨h.1, ?_⟩
+    rw [h.2, conns_split_view s hc hp, repoint_view s.heap d lvl _ hlt]
+    simp [viewT, viewPrivs]
+
 /-- **refinement**: under the separation invariant every heap operation is the value-level operation on
     the snapshots, and the invariant is kept -/
 theorem step_refines (classes : List ClassInfo) (hcl : Copies classes) {s : St} (hi : Inv s) (op : Op) :
@@ -762,6 +954,8 @@ theorem step_refines (classes : List ClassInfo) (hcl : Copies classes) {s : St} 
   | registerSession i name => exact step_registerSession classes hi i name
   | editLevel i lvl d => exact step_editLevel classes hi i lvl d
   | editFailedWhen i l => exact step_editFailedWhen classes hi i l
+  | delLevel i lvl => exact step_delLevel classes hi i lvl
+  | addLevel i lvl d => exact step_addLevel classes hi i lvl d
 
 theorem run_refines (classes : List ClassInfo) (hcl : Copies classes) (ops : List Op) {s : St} (hi : Inv s) :
     Inv (run classes s ops) ∧ view (run classes s ops) = runV classes (view s) ops := by
@@ -856,6 +1050,8 @@ theorem stepV_defs (classes : List ClassInfo) (s : StV) (op : Op) : (stepV class
   | registerSession i name => rfl
   | editLevel i lvl d => rfl
   | editFailedWhen i l => rfl
+  | delLevel i lvl => rfl
+  | addLevel i lvl d => rfl
 
 theorem stepV_other (classes : List ClassInfo) (s : StV) (op : Op) {j : Nat} (h : op.conn ≠ j) :
     (stepV classes s op).conns.lookup j = s.conns.lookup j := by
@@ -874,6 +1070,8 @@ theorem stepV_other (classes : List ClassInfo) (s : StV) (op : Op) {j : Nat} (h 
   | registerSession i name => exact updFirst_lookup_ne h _ _
   | editLevel i lvl d => exact updFirst_lookup_ne h _ _
   | editFailedWhen i l => exact updFirst_lookup_ne h _ _
+  | delLevel i lvl => exact updFirst_lookup_ne h _ _
+  | addLevel i lvl d => exact updFirst_lookup_ne h _ _
 
 theorem stepV_own (classes : List ClassInfo) (s1 s2 : StV) (op : Op) (hd : s1.defs = s2.defs)
     (hj : s1.conns.lookup op.conn = s2.conns.lookup op.conn) :
@@ -891,6 +1089,8 @@ theorem stepV_own (classes : List ClassInfo) (s1 s2 : StV) (op : Op) (hd : s1.de
   | registerSession i name => simp only [stepV, Op.conn, updFirst_lookup_eq] at hj ⊢; rw [hj]
   | editLevel i lvl d => simp only [stepV, Op.conn, updFirst_lookup_eq] at hj ⊢; rw [hj]
   | editFailedWhen i l => simp only [stepV, Op.conn, updFirst_lookup_eq] at hj ⊢; rw [hj]
+  | delLevel i lvl => simp only [stepV, Op.conn, updFirst_lookup_eq] at hj ⊢; rw [hj]
+  | addLevel i lvl d => simp only [stepV, Op.conn, updFirst_lookup_eq] at hj ⊢; rw [hj]
 
 theorem runV_defs (classes : List ClassInfo) (ops : List Op) (s : StV) : (runV classes s ops).defs = s.defs := by
   induction ops generalizing s with
